@@ -167,6 +167,9 @@ func RunWith(h History, s *Sorter, tolerateErrors bool, mark func(string) *Err) 
 		return out, errf("unexpected-error", "%s: %v", where, err)
 	}
 	for ci, c := range h.Cycles {
+		// AutoClean removes the whole directory when a drain completes, so it is only
+		// switched on for the last cycle of a history
+		s.M.AutoClean = h.AutoClean && ci == len(h.Cycles)-1
 		pushed := map[item]int{}
 		spilled := len(c.Keys) >= h.Chunk
 		out.Spilled = append(out.Spilled, spilled)
@@ -245,6 +248,11 @@ func RunWith(h History, s *Sorter, tolerateErrors bool, mark func(string) *Err) 
 			// EOF is stable
 			if _, err := s.Pull(); err != io.EOF {
 				return out, errf("eof-not-stable", "cycle %d: Pull after io.EOF returned %v", ci, err)
+			}
+			if mark != nil {
+				if e := mark(fmt.Sprintf("drained %d", ci)); e != nil {
+					return out, e
+				}
 			}
 		} else if want > len(c.Keys) {
 			return out, errf("no-eof", "cycle %d: no io.EOF after %d pulls of %d pushed values", ci, pulled, len(c.Keys))
